@@ -40,7 +40,7 @@ INLINE_NAMES = ["span", "a", "b", "i", "em", "strong", "code", "small", "sub", "
 
 ATTR_NAMES = ["id", "class", "style", "href", "title", "data-x", "data-a-b", "aria-label", "x:y", "@click",
               ":bind", "v-on.stop", "_u", "A", "a", "onclick", "value", "name", "lang", "dir", "role", "viewBox", "viewbox", "Data-X", "aria-hidden",
-              "aria-checked", "hidden"]
+              "aria-checked", "hidden", "className", "htmlFor", "tabIndex", "readOnly", "for", "class-name", "acceptCharset", "xlink:href", "xml:lang"]
 
 # ------------------------------------------------------------------ text classes
 META = "&<>\"';#\r\n"
@@ -547,6 +547,42 @@ def build_tag(r):
         finally:
             _sys.displayhook = old
         return t
+    if how == "remove_twin":
+        # a sibling that merely STARTS like an earlier element (same name and attributes, one more child) is added next to it
+        # and taken out again by value: the by-value list operations address the element that is equal, nothing else
+        import copy as _copy
+
+        t = mk(*attr_args, *kids)
+        idx = [i for i, c in enumerate(t.children) if isinstance(c, ht.Tag)]
+        if idx:
+            i = idx[len(idx) // 2]
+            twin = _copy.copy(t.children[i])
+            twin.append("twin-extra-child")
+            t.children.insert(i + 1, twin)
+            if t.children.index(twin) != i + 1 or t.children.count(twin) != 1 or twin not in t.children:
+                raise AssertionError("children.index()/count()/in do not find the element that was asked for")
+            t.children.remove(twin)
+        return t
+    if how == "class_added_later":
+        # part of the class / style value arrives through add_class() / add_style() on the finished element: the value is the
+        # same and the attribute keeps its place among the others
+        norm = lambda n_: (n_[:-1] if n_.endswith("_") else n_).replace("_", "-")   # noqa: E731
+        names = [norm(n_) for n_, _ in attrs]
+        for k_, (n_, v_) in enumerate(attrs):
+            nn = norm(n_)
+            if nn in ("class", "style") and v_["t"] == "str" and not v_.get("sub") and names.count(nn) == 1 and " " in v_["s"]:
+                cut = v_["s"].index(" ")
+                a_, b_ = v_["s"][:cut], v_["s"][cut + 1:]
+                if not a_ or not b_ or (nn == "style" and not (a_.endswith(";") and b_.endswith(";"))):
+                    continue
+                pre = k_ % 2 == 1
+                args2 = list(attr_args)
+                args2[k_] = {n_: b_ if pre else a_}
+                t = mk(*args2, *kids)
+                r_ = (t.add_class if nn == "class" else t.add_style)(a_ if pre else b_, prepend=pre)
+                assert r_ is t
+                return t
+        return mk(*attr_args, *kids)
     if how == "displayed":
         # children added by displaying them inside the element's `with` block (None/Ellipsis would be ignored; self-rendering
         # objects that are not tagifiable are stored as their markup, which renders the same)
@@ -587,7 +623,7 @@ def build_tag(r):
 
 
 HOWS = ["ctor", "ctor", "ctor_mixed", "nested", "append", "append_many", "extend", "insert", "taglist", "toggle_ws", "reassign_children",
-        "slice_children", "iadd", "insert_neg_list", "extend_iter", "iadd_gen", "extend_map", "used_as_context", "setitem_last", "after_rejected_extend", "sum_with_empty_is_new", "attrs_from_template"]
+        "slice_children", "iadd", "insert_neg_list", "extend_iter", "iadd_gen", "extend_map", "used_as_context", "setitem_last", "after_rejected_extend", "sum_with_empty_is_new", "attrs_from_template", "remove_twin", "class_added_later"]
 
 
 # ------------------------------------------------------------------ recipe helpers
@@ -640,7 +676,9 @@ def rand_attrs(rng, n_max=4, hostile=True):
     for _ in range(rng.randint(0, n_max) if rng.random() < 0.6 else 0):
         name = rng.choice(ATTR_NAMES)
         r = rng.random()
-        if r < 0.7:
+        if name == "style" and r < 0.3:
+            v = {"t": "str", "s": " ".join("%s:%s;" % (rng.choice(["color", "margin", "--v"]), rng.choice(["red", "0", "1px 2px"])) for _ in range(rng.randint(1, 3)))}
+        elif r < 0.7:
             v = {"t": "str", "s": text_of(rng) if hostile else rng.choice(WORDS)}
         elif r < 0.8:
             v = {"t": "num", "v": rng.choice([0, 1, 42, -7, 1.5, 1234567.0, 10**12])}
